@@ -1294,6 +1294,29 @@ def py_isclass(x):
     return isinstance(x, ClassVal)
 
 
+@model("numpy.array_equal")
+def np_array_equal(a, b, equal_nan=False):
+    """array_equal(a, b): same shape and all elements equal (shapes compared concretely where both are concrete, else
+    taken from the first operand when the extents are provably the same objects; otherwise outside the subset)"""
+    if a is None or b is None:
+        return a is None and b is None          # (array(None) is a 0-d object array: equal to nothing but itself)
+    ta, tb = Tensor.lift(a), Tensor.lift(b)
+    if ta is None or tb is None:
+        raise Unsupported("array_equal of non-arrays")
+    if ta.ndim != tb.ndim:
+        return False
+    for x, y in zip(ta.shape, tb.shape):
+        x, y = unwrap(x), unwrap(y)
+        if isinstance(x, int) and isinstance(y, int):
+            if x != y:
+                return False
+        elif not (x is y or (z3.is_expr(x) and z3.is_expr(y) and x.eq(y))):
+            raise Unsupported("array_equal of arrays whose extents are not syntactically the same")
+    if ta.ndim == 0:
+        return S.cmp("==", ta.at(), tb.at())
+    return (ta == tb).all()
+
+
 @model("numpy.ptp")
 def np_ptp(x):
     return S.sub(np_max(x), np_min(x))
